@@ -40,6 +40,19 @@ def dispatchIntervals : String → List Val → Option Val
   | "intervals.is_dissonant", [str a, str b, Val.bool f] => some (toVal (Intervals.isDissonant a b f))
   | "intervals.determine", [str a, str b, Val.bool sh] => some (toVal (Intervals.determine a b sh))
   | "intervals.from_shorthand", [str n, str iv, Val.bool up] => some (toVal (Intervals.fromShorthand n iv up))
+  | "intervals.det_roundtrip", [str a, str b] =>
+      some (match Intervals.determine a b true with
+        | .error e => .err e
+        | .ok sh => match Intervals.fromShorthand a sh true with
+          | .error e => .err e
+          | .ok v => .list [.str sh, v])
+  | "intervals.updown", [str n, str sh] =>
+      some (match Intervals.fromShorthand n sh true with
+        | .error e => .err e
+        | .ok (.str u) => (match Intervals.fromShorthand u sh false with
+          | .error e => .err e
+          | .ok v => .list [.str u, v])
+        | .ok _ => .err .type)
   | "intervals.invert", [list l] =>
       let strs := l.filterMap (fun v => match v with | str x => some x | _ => Option.none)
       some (toVal (Intervals.invert strs))
